@@ -31,7 +31,7 @@ IMPORTS = "From Verif Require Import C11.Model C11.Spec C11.Corr."
 CASE_TYPE = "C11.Corr.case"
 RUNNER = "C11.Corr.run"
 FINDING_CLASSES = {1: "C11-F1", 2: "C11-F2", 3: "C11-F3", 4: "C11-F4", 5: "C11-F5", 6: "C11-F6", 7: "C11-F7",
-                   8: "C11-F8"}
+                   8: "C11-F8", 9: "C11-F9"}
 RULE = (
     "histories over random EntityDescriptor/EntitiesDescriptor documents (1-6 entities from a pool of 3 ids so that "
     "ids repeat, 1-3 role descriptors of the 5 role kinds, protocolSupportEnumeration in {2.0, 1.1, 1.1+2.0, x+2.0, "
@@ -52,6 +52,14 @@ RULE = (
     "+14 ... -12, +5:45; daylight-saving zones of both hemispheres and a half-hour one), and the family 'zone' puts "
     "now + freshness_period just before / at the start of / inside / at the end of / after the stretch of UTC readings "
     "that the local calendar skips, for periods {10 min, 1 h, 12 h}, with validUntil one second before / at / after now.  "
+    "protocolSupportEnumeration AS WRITTEN: a fifth of the role descriptors of the random families and the family 'pse' "
+    "(103 histories) give the attribute VALUE - 1-4 names out of {SAML 2.0, SAML 1.0 / 1.1, Shibboleth 1.0, another URI, "
+    "18 near misses of the SAML 2.0 name: the name as prefix / suffix / inside a longer URI, in other letter cases, "
+    "truncated, doubled, glued to another name by ',' / ';'}, repeats allowed, separated by one / several blanks or by a "
+    "tab / line feed / carriage return (character reference), blanks and line breaks in front / behind, every blank "
+    "written as blank / literal tab / line break / CRLF - per role, in entities with 1-3 roles (a near-miss role next to "
+    "a SAML 2.0 role of the same or another kind; nothing but a near-miss role), through inline / file / remote / MDQ "
+    "sources; Coq splits the value (Tokens.rp) and the reference reads its ITEMS (Tokens.canon_hist).  "
     "After EVERY step the whole query set (27 lookups per entity of the universe + keys() + "
     "with_descriptor() for 6 kinds) is put in the case's ORDER — as listed (__getitem__ first), 'service first' "
     "(keys / with_descriptor, then per entity service lookups ... and __getitem__ last) or a seeded permutation, a third "
@@ -77,7 +85,10 @@ ASSUMPTIONS = [
     "documents (usable ones with the asked entity among others, expired ones, ones with an indexed endpoint lacking "
     "index); under a certificate an MDQ answer counts as verified only if it is an EntityDescriptor with a valid signature",
     "every KeyDescriptor carries exactly one X509Certificate and no KeyName; every role descriptor carries "
-    "protocolSupportEnumeration; a list-style imp() item names one source",
+    "protocolSupportEnumeration with at least one name in it (an empty / blank value makes do_entity_descriptor raise "
+    "KeyError - to_dict drops the key -, an EntitiesDescriptor with an empty one fails validation: a failed load either "
+    "way, outside the model); its value holds no white space other than blank, tab, line feed and carriage return "
+    "(str.strip() in mdie.to_dict would remove more); a list-style imp() item names one source",
     "MetaDataMD (json dump) and MetaDataLoader sources are outside the quantifier (MetaDataLoader cannot be "
     "constructed at all: SAMLError 'No file specified')",
     "an unusable source specification (a remote source named by a bare string, an unknown source type, an unknown loader "
@@ -150,7 +161,28 @@ def r_role(r):
                    "".join("<md:RequestedAttribute Name=%s%s/>" % (quoteattr(n), render.attr("isRequired", q))
                            for n, q in attrs))
     return "<md:%s protocolSupportEnumeration=%s>%s%s%s</md:%s>" % (
-        KIND_TAG[r["kind"]], quoteattr(" ".join(r["protos"])), keys, svcs, acs, KIND_TAG[r["kind"]])
+        KIND_TAG[r["kind"]], r_pse(r), keys, svcs, acs, KIND_TAG[r["kind"]])
+
+
+_PSE_ESC = {'"': "&quot;", "\t": "&#9;", "\n": "&#10;", "\r": "&#13;"}
+
+
+def pse_value(r):
+    """protocolSupportEnumeration as the XML parser reports it: r["pse"] when the role spells the attribute value
+    out, else the items of r["protos"] with one blank between them."""
+    return r["pse"] if r.get("pse") is not None else " ".join(r["protos"])
+
+
+def r_pse(r):
+    """The attribute as WRITTEN.  A tab / line feed / carriage return of the value needs a character reference;
+    every blank of the value may be written as a blank or as a literal tab / line break (r["sep"], used in turn):
+    attribute-value normalisation turns each of them into one blank ("\r\n" counts as one line break)."""
+    seps = r.get("sep") or [" "]
+    pieces = pse_value(r).split(" ")
+    out = escape(pieces[0], _PSE_ESC)
+    for i, piece in enumerate(pieces[1:]):
+        out += seps[i % len(seps)] + escape(piece, _PSE_ESC)
+    return '"' + out + '"'
 
 
 def r_ext(e):
@@ -775,8 +807,12 @@ def c_svc(s):
 
 
 def c_role(r):
-    return "(rl %s %s %s %s %s)" % (
-        cs(r["kind"]), clist(cs(p) for p in r["protos"]), clist(c_svc(s) for s in r["svcs"]),
+    if r.get("pse") is not None:        # the attribute value as a string: Corr.rp splits it (as the code does)
+        head = "(rp %s %s" % (cs(r["kind"]), cq(r["pse"]))
+    else:
+        head = "(rl %s %s" % (cs(r["kind"]), clist(cs(p) for p in r["protos"]))
+    return "%s %s %s %s)" % (
+        head, clist(c_svc(s) for s in r["svcs"]),
         clist("(ky %s %s)" % (cso(u), cs(c)) for u, c in r["keys"]),
         clist("(ACS %s %s)" % (cs(i), clist("(RA %s %s)" % (cs(n), cso(q)) for n, q in attrs))
               for i, attrs in r.get("acs", [])))
@@ -1419,6 +1455,131 @@ def assign_zones(cases):
     return cases
 
 
+# ---- protocolSupportEnumeration as WRITTEN (round 6) ------------------------------------------------------------
+SHIB10P = "urn:mace:shibboleth:1.0"
+# URIs that are NOT the SAML 2.0 protocol name although they contain it / differ from it by letter case / are a
+# part of it: a role that lists only such names (and other protocols) does not support SAML 2.0
+NEAR_MISSES = [
+    SAML2P + ":ext:legacy-gateway", SAML2P + "-draft-07", SAML2P + "/", SAML2P + "#", SAML2P + ".",
+    "http://profiles.example.org/gateway#" + SAML2P, "x" + SAML2P, "urn:x:" + SAML2P + ":y",
+    SAML2P.upper(), SAML2P.lower(), "URN:" + SAML2P[4:], SAML2P[:-1], "urn:oasis:names:tc:SAML:2.0",
+    "urn:oasis:names:tc:SAML:2.0:assertion", "urn:oasis:names:tc:SAML:2.0:metadata", SAML2P + SAML2P,
+    SAML2P + "," + SAML11P, SAML11P + ";" + SAML2P]
+OTHER_PROTOS = [SAML11P, SAML10P, SHIB10P, "urn:x:proto"]
+# separators INSIDE the value: one blank, several blanks, and the white space that only a character reference
+# can put there (tab, line feed, carriage return: the items are still separate items, finding C11-F9)
+VALUE_SEPS = [" "] * 9 + ["  "] * 3 + ["   ", "\t", "\n", "\r", " \n ", "\r\n"]
+# how a blank of the value is WRITTEN in the document (the parser turns each into one blank)
+BLANK_SPELLINGS = [[" "], ["\t"], ["\n"], ["\r\n"], ["\r"], ["\n", "\t", " "]]
+
+
+def g_pse(rng):
+    """A seeded enumeration value with its spelling: 1-4 names drawn from the SAML 2.0 name, the other protocols and
+    the near misses (repeats allowed), joined by the separators above, now and then with a blank in front / behind."""
+    n = rng.choice([1, 1, 2, 2, 2, 3, 4])
+    names = []
+    for _ in range(n):
+        x = rng.random()
+        names.append(SAML2P if x < 0.3 else rng.choice(OTHER_PROTOS) if x < 0.55 else rng.choice(NEAR_MISSES))
+    v = names[0]
+    for name in names[1:]:
+        v += rng.choice(VALUE_SEPS) + name
+    if rng.random() < 0.15:
+        v = " " + v
+    if rng.random() < 0.15:
+        v += rng.choice([" ", "  ", "\n", "\t"])
+    return v, list(rng.choice(BLANK_SPELLINGS))
+
+
+def _roles_of_case(case):
+    for s in case["steps"]:
+        fs = [s["fetch"]] if s["op"] == "load" else [f for _x, f in s["items"]] if s["op"] == "reload" else \
+            [f for _e, f in s["tbl"]] if s["op"] == "server" else []
+        for f in fs:
+            if f.get("st") == "doc":
+                for e in f["doc"]["ents"]:
+                    for r in e["roles"]:
+                        yield r
+
+
+def assign_enumerations(cases):
+    """a seeded share of the role descriptors of the random families gets its enumeration spelled out as a value
+    (a PRNG of its own: the histories are otherwise untouched)"""
+    rng = __import__("random").Random(1111)
+    seen = set()
+    for c in cases:
+        if c["tag"] not in ("doc", "multi", "fail", "mdq", "cold"):
+            continue
+        for r in _roles_of_case(c):
+            if id(r) in seen:
+                continue
+            seen.add(id(r))
+            if rng.random() < 0.2:
+                r["pse"], r["sep"] = g_pse(rng)
+    return cases
+
+
+def fam_pse(t0=T0):
+    """protocolSupportEnumeration, systematically.  Per value: an EntitiesDescriptor with
+      urn:e1 = an IdP role with THE VALUE (endpoint, signing key) + an SP role that lists SAML 2.0,
+      urn:e2 = nothing but an IdP role with the value (served at all only if the value lists SAML 2.0),
+      urn:e3 = an IdP role with the value, a second IdP role "SAML 1.1, SAML 2.0" and an AA role with the value,
+    loaded as inline text / local file / remote document (in turn), then the three entities as MDQ answers of a
+    second store-less history.  Values: (a) every near miss alone, after SAML 1.1, before SAML 1.1; (b) lists that DO
+    contain the name - alone, first, last, in the middle, twice - with every separator (one / several blanks, tab,
+    line feed, carriage return by character reference), with blanks in front / behind, and with the blanks written
+    as literal tabs / line breaks; (c) other protocols only."""
+    rng = __import__("random").Random(1112)
+    out = []
+
+    def role(kind, pse, sep, loc, key):
+        name = MANDATORY[kind]
+        return {"kind": kind, "pse": pse, "sep": sep, "svcs": [[name, R if kind == K_IDP else S, loc, None]],
+                "keys": [["signing", key]] if key else [], "acs": []}
+
+    def ents(pse, sep, n):
+        sp = {"kind": K_SP, "protos": [SAML2P], "svcs": [[N_ACS, P, "https://h1.example.org/%d" % (n % 40 + 1), "0"]],
+              "keys": [["encryption", "sp"]], "acs": []}
+        good = {"kind": K_IDP, "pse": SAML11P + " " + SAML2P, "sep": sep,
+                "svcs": [[N_SSO, R, "https://h3.example.org/%d" % (n % 40 + 1), None]], "keys": [[None, "idp2"]], "acs": []}
+        base = {"vu": None, "affil": False, "attrs": [], "regs": []}
+        return [dict(base, id="urn:e1", roles=[role(K_IDP, pse, sep, "https://h2.example.org/1", "idp"), sp]),
+                dict(base, id="urn:e2", roles=[role(K_IDP, pse, sep, "https://h2.example.org/2", "other")]),
+                dict(base, id="urn:e3", roles=[role(K_IDP, pse, sep, "https://h2.example.org/3", "idpenc"), good,
+                                               role(K_AA, pse, sep, "https://h2.example.org/4", None)])]
+
+    values = []
+    for m in NEAR_MISSES:
+        values += [(m, [" "]), (SAML11P + " " + m, [" "]), (m + " " + SAML11P, [" "])]
+    for sepv in [" ", "  ", "   ", "\t", "\n", "\r", "\r\n", " \t"]:
+        values += [(SAML11P + sepv + SAML2P, [" "]), (SAML2P + sepv + SAML11P, [" "]),
+                   (SAML10P + sepv + SAML2P + sepv + SHIB10P, [" "])]
+    for sp_ in BLANK_SPELLINGS[1:]:
+        values += [(SAML11P + " " + SAML2P, sp_), (SAML2P + " " + SAML10P + " " + SAML11P, sp_),
+                   (SAML11P + " " + NEAR_MISSES[0], sp_)]
+    values += [(" " + SAML2P, [" "]), (SAML2P + " ", [" "]), ("  " + SAML2P + "  ", ["\n"]), (SAML2P + "\n", [" "]),
+               ("\t" + SAML2P, [" "]), (SAML2P + " " + SAML2P, [" "]), (SAML2P + " " + SAML11P + " " + SAML2P, [" "]),
+               (SAML11P, [" "]), (SAML10P + " " + SAML11P + " " + SHIB10P, [" "]), (SHIB10P + "\n" + SAML11P, [" "])]
+    kinds = ["inline", "file", "remote"]
+    for n, (pse, sep) in enumerate(values):
+        es = ents(pse, sep, n)
+        if n % 4 == 3:          # the same through an MDQ source: one EntityDescriptor per answer
+            steps = [{"op": "server", "tbl": [[e["id"], _single(e)] for e in es]},
+                     load(g_src(None, "mdq", "q1", period=3600), {"st": "missing"}, False, "load")]
+        else:
+            group = n % 2 == 0
+            if group:
+                steps = [load(g_src(None, kinds[n % 3], "s1"), doc_fetch({"group": True, "vu": None, "ents": es}),
+                              False, ["load", "imp"][(n // 2) % 2])]
+            else:               # three single documents, three sources
+                steps = [load(g_src(None, kinds[(n + i) % 3], "s%d" % (i + 1)), _single(e), False, "load")
+                         for i, e in enumerate(es)]
+        c = mk("pse", steps, t0)
+        c["order"] = [] if n % 3 == 0 else order_service_first(c["universe"]) if n % 3 == 1 else order_random(rng, c["universe"])
+        out.append(c)
+    return out
+
+
 def generate(ctx):
     rng = ctx.rng
     big = ctx.thorough
@@ -1427,6 +1588,7 @@ def generate(ctx):
     cases += fam_sig()
     cases += fam_cv()
     cases += fam_zone()
+    cases += fam_pse()
     cases += fam_doc(rng, 1500 if big else 250)
     cases += fam_multi(rng, 1200 if big else 200)
     cases += fam_fail(rng, reps=4 if big else 1)
@@ -1434,6 +1596,7 @@ def generate(ctx):
     cases += fam_cold(rng, 240 if big else 60)
     assign_orders(rng, cases)
     assign_zones(cases)
+    assign_enumerations(cases)
     rng.shuffle(cases)            # balances the Coq shards
     return cases
 
@@ -1472,8 +1635,28 @@ def nontrivial(case, obs):
 def histogram(cases, observed):
     h = {"by_tag": {}, "ops": {}, "source_kinds": {}, "sig_states": {}, "fetch_states": {}, "flags": {"ok": 0, "raised": 0},
          "answer_shapes": {}, "steps": 0, "answers": 0, "docs": {"single": 0, "group": 0}, "entities_per_group": {},
-         "check_validity_spelled": {}, "store_check_validity": {"on": 0, "off": 0}, "optional_key_spellings": {}}
+         "check_validity_spelled": {}, "store_check_validity": {"on": 0, "off": 0}, "optional_key_spellings": {},
+         "enumeration_values": {"as list of the usual names": 0, "spelled value": 0, "... with a near miss of the SAML 2.0 name": 0,
+                                "... with tab / LF / CR between names": 0, "... with several blanks": 0,
+                                "... blanks written as tab / line break": 0, "... the SAML 2.0 name more than once": 0}}
+    seen_roles = set()
     for c, o in zip(cases, observed):
+        for r in _roles_of_case(c):
+            if id(r) in seen_roles:
+                continue
+            seen_roles.add(id(r))
+            ev = h["enumeration_values"]
+            if r.get("pse") is None:
+                ev["as list of the usual names"] += 1
+                continue
+            ev["spelled value"] += 1
+            v = r["pse"].strip()
+            items = v.split()
+            ev["... with a near miss of the SAML 2.0 name"] += any(x in NEAR_MISSES for x in items)
+            ev["... with tab / LF / CR between names"] += any(ch in v for ch in "\t\n\r")
+            ev["... with several blanks"] += "  " in v
+            ev["... blanks written as tab / line break"] += (r.get("sep") or [" "]) != [" "] and " " in v
+            ev["... the SAML 2.0 name more than once"] += items.count(SAML2P) > 1
         h["by_tag"][c["tag"]] = h["by_tag"].get(c["tag"], 0) + 1
         h["store_check_validity"]["on" if c.get("scv", True) else "off"] += 1
         z = h.setdefault("zones", {})
